@@ -68,6 +68,43 @@ def shard_fetch(lo, hi, seed):
             if ln != want or got != exp:
                 acc.violation('C07:fetch-length', {'kind': 'fetch', 'hw': hw, 'hw2': hw2, 'cpsr': cpu.registers.cpsr.value},
                               {'expected_len': want, 'observed_len': ln, 'expected_word': exp, 'observed_word': got})
+    # the second halfword of a 32-bit instruction is a separate fetch with its own access check: first halfword in the last halfword of an accessible
+    # MPU region, the next two bytes in no region (background fault) / in a region that denies the access. A 16-bit instruction there is fetched
+    # normally, a 32-bit one takes the abort (armulator reports it through its Data Abort path) - it is never completed from bytes it may not read
+    from armulator.armv6.arm_exceptions import DataAbortException
+    cpu2 = target.new_cpu(None, False, [(0x8000, 0x100)])
+    base_state = {'mpuir': 12 << 8, 'drsrs[0]': (6 << 1) | 1, 'drbars[0]': 0x8000, 'dracrs[0]': 3 << 8, 'drsrs[1]': 0, 'drbars[1]': 0x8080, 'dracrs[1]': 0}
+    for r_ in range(2, 12):
+        base_state['drsrs[%d]' % r_] = 0
+    for hw in range(lo, hi):
+        want = 32 if (hw >> 11) in (0b11101, 0b11110, 0b11111) else 16
+        variant = rng.randrange(3)
+        st_ = dict(base_state)
+        user = False
+        if variant == 1:
+            st_['drsrs[1]'] = (6 << 1) | 1                  # a region follows, AP = no access
+        elif variant == 2:
+            st_['drsrs[1]'] = (6 << 1) | 1                  # a region follows, privileged only; the fetch is made in User mode
+            st_['dracrs[1]'] = 1 << 8
+            user = True
+        target.apply_state(cpu2, st_)
+        cpu2.registers.sctlr.value = (cpu2.registers.sctlr.value | 1) & ~(1 << 17)
+        cpu2.registers.cpsr.value = (0x1F0 if user else 0x1F3) | (rng.getrandbits(5) << 27) | (rng.choice((0, 0, 1)) << 9)
+        cpu2.registers.branch_to(0x807E)
+        hw2 = rng.getrandbits(16)
+        target.poke(cpu2, 0x807E, e1.enc_thumb(hw, False) + e1.enc_thumb(hw2, False))
+        try:
+            got = cpu2.fetch_instruction()
+            ln = cpu2.opcode_len
+        except DataAbortException:
+            got, ln = 'abort', None
+        except Exception as ex:
+            got, ln = repr(ex), None
+        acc.case(want == 32, ('fetch-edge', hw, variant), cls='fetch-second-halfword-denied')
+        ok = (got == 'abort') if want == 32 else (ln == 16 and got == hw)
+        if not ok:
+            acc.violation('C07:fetch-second-halfword', {'kind': 'fetch', 'hw': hw, 'hw2': hw2, 'cpsr': cpu2.registers.cpsr.value, 'variant': variant},
+                          {'expected': 'abort on the second halfword' if want == 32 else 'the 16-bit instruction', 'observed_len': ln, 'observed': got})
     acc.exhaustive = True
     return acc
 
@@ -102,6 +139,7 @@ def run(ctx):
     for k, cn in enumerate(('v5', 'v7', 'v4', 'v7-vfp')):
         tasks += [(chk.corner_shard, ('vf.props.c07:SPEC32', i, 8, ctx.shard_seed(800 + 20 * k + i), ctx.n(2, 20), cn)) for i in range(8)]
     tasks += [(_e1p.shard_repeat, ('vf.props.c07:PLAN_REPEAT', ctx.shard_seed(900 + i), ctx.n(150, 3000))) for i in range(8)]
+    tasks += _e1p.history_tasks(ctx, 'vf.props.c07:PLAN_REPEAT', quick=250)
     tasks += [(chk.operand_path_shard, ('vf.props.c07:SPEC32', i, 16, ctx.shard_seed(1100 + i), ctx.n(300, 3000))) for i in range(16)]
     ctx.pmap(_dispatch, tasks)
     ctx.acc.exhaustive = True
